@@ -16,7 +16,31 @@ arrays of its first argument, ...) are not forbidden by the documentation, so
 the interpreter tracks provenance: before an *in-place element write* into a
 slot, every other slot derived from / feeding into that slot (without a
 ``copy()`` in between) is rebuilt from its model.  ``copy()`` results get a
-fresh provenance and are therefore never excused.
+fresh provenance and are therefore never excused.  The same holds for the
+``Atom`` returned by ``array[i]`` / ``stack[m, i]`` / iteration: whether it is a
+view of the container is not documented (in the list-of-atoms model ``lst[i]``
+*is* the stored atom), so it is never edited in place; the strict form is
+applied to ``atom.copy()`` (edited in place: neither the atom it was copied
+from nor the container may change).
+
+Outcomes that are documented nowhere and therefore accepted in more than one
+form (the label shows which one occurred):
+
+* duplicated atom index on a container with bonds: any exception, or a
+  container that equals the model in everything but the content of its
+  BondList (which must still be coherent with the atom count);
+* ``stack()`` of arrays of which only some have a box: ``box is None`` or a
+  ValueError/TypeError;
+* ``array[index_array] = atom`` (documented index type: int): performed, or
+  refused with TypeError/IndexError/ValueError leaving the array unchanged;
+* out-of-range ``del`` / ``a[i] = `` / ``stack[j] = ``: IndexError, ValueError
+  or TypeError (``__getitem__`` follows NumPy: IndexError);
+* a multidimensional index on an AtomArray / a 3-tuple on a stack: any of
+  IndexError, ValueError, TypeError.
+
+Assumptions that are not spelled out in a docstring but follow from "the same
+atoms, repeated": ``repeat()`` carries the box and repeats the bonds with the
+index offset of each repetition (``models/atoms_model.py:repeat``).
 """
 
 import math
@@ -30,12 +54,15 @@ from vlib import Enum, Outcome, Sub, findings
 PROPERTY = "C01"
 RULE = (
     "op-list histories over 3 slots holding AtomArray/AtomArrayStack (n 0..8 atoms, m 0..4 models, "
-    "optional bonds, box, extra annotations of dtype int/float/bool/str); non-trivial = the history "
+    "optional bonds, box, extra annotations of dtype int64/int8/float64/float32/bool/str); non-trivial = the history "
     "has >= 1 index operation with a negative value or a mask/index array AND >= 1 structural "
     "operation (delete, concatenate, stack, repeat) on a container that has bonds or a box"
 )
 
 NSLOTS = 3
+# repeat / concatenate chains are cut here: larger containers only cost time (every slot is compared
+# element-wise after every step)
+MAX_ATOMS = 2000
 
 # --------------------------------------------------------------------------
 # value pools (all inside the dtype widths of the mandatory annotations)
@@ -49,8 +76,10 @@ POOL = {
     "xs": ["", "a", "bc", "abc"],
 }
 XF = [0.0, -1.5, 2.25, float("nan"), float("inf"), 1e30]
-EXTRA = {"xi": "i", "xf": "f", "xb": "b", "xs": "U"}
-EXTRA_NAMES = ["xi", "xf", "xb", "xs"]
+XH = [0.0, -1.5, 2.25, float("nan"), float("-inf"), 1024.0]  # exactly representable in float32
+# x8 / xh: stored dtypes that differ from the default of their kind (int8, float32)
+EXTRA = {"xi": "i", "xf": "f", "xb": "b", "xs": "U", "x8": "i", "xh": "f"}
+EXTRA_NAMES = ["xi", "xf", "xb", "xs", "x8", "xh"]
 DTYPE = {
     "chain_id": "U4",
     "res_id": np.int64,
@@ -64,19 +93,28 @@ DTYPE = {
     "xf": np.float64,
     "xb": bool,
     "xs": "U3",
+    "x8": np.int8,
+    "xh": np.float32,
 }
 KIND = dict(M.MANDATORY)
 KIND.update(EXTRA)
 KIND["uid"] = "i"
 EDITABLE = [name for name, _ in M.MANDATORY] + EXTRA_NAMES
+# dtype kinds that can hold the values of a model kind without changing them ("T": variable-width strings)
+KIND_OK = {"U": "UT", "i": "iu", "f": "f", "b": "b"}
 N_BOND_TYPES = 10
 
 EXC = {
     "index": (IndexError,),
-    "notimpl": (NotImplementedError,),
     # raise type not documented: any of the three conventional ones
     "any": (IndexError, ValueError, TypeError),
 }
+# nothing at all is documented for this input class: an error of whatever type (or a result, see attempt())
+EXC["notimpl"] = (Exception,)
+
+
+def _kind_label(kind):
+    return kind if isinstance(kind, str) else "+".join(kind)
 
 
 def exc_for(kind):
@@ -93,6 +131,10 @@ def value_for(name, raw):
     if k == "U":
         pool = POOL[name]
         return pool[raw % len(pool)]
+    if name == "x8":
+        return int(raw) % 256 - 128
+    if name == "xh":
+        return XH[raw % len(XH)]
     if k == "i":
         return int(raw)
     if k == "f":
@@ -106,8 +148,9 @@ def fit_width(real, name, value):
     truncates longer strings silently).  Longer values are cut *before* the write,
     for the model and the real object alike."""
     if isinstance(value, str):
-        width = real.get_annotation(name).dtype.itemsize // 4
-        return value[:width]
+        dt = real.get_annotation(name).dtype
+        if dt.kind == "U":  # fixed width; a variable-width string dtype truncates nothing
+            return value[: dt.itemsize // 4]
     return value
 
 
@@ -310,7 +353,48 @@ def check_atom(o, atom, matom, ctx):
         o.check(M.same_value(got, want), "annotations_equal_model", lambda: f"{ctx}: atom.{name} = {got!r}, want {want!r}")
 
 
-def real_bond_dict(o, bl, n, ctx):
+def _atom_has_nan(matom):
+    vals = list(matom["coord"]) + list(matom["ann"].values())
+    return any(isinstance(v, float) and math.isnan(v) for v in vals)
+
+
+def check_atom_copy(o, atom, matom, ctx):
+    """``atom.copy()``: equal to the atom, and an in-place edit of the copy's coordinates changes
+    neither the atom it was copied from (checked here) nor the container the atom came from
+    (checked by the comparison of every slot after the step)."""
+    from biotite.structure import Atom
+
+    if not isinstance(atom, Atom) or not isinstance(getattr(atom, "coord", None), np.ndarray):
+        return
+    clone = atom.copy()
+    nv = len(o.violations)
+    check_atom(o, clone, matom, ctx + " .copy()")
+    if len(o.violations) != nv:
+        return
+    o.check(clone is not atom, "copy_independent", lambda: f"{ctx}: Atom.copy() returned the same object")
+    if not _atom_has_nan(matom):
+        o.check(clone == atom and atom == clone, "copy_equal", lambda: f"{ctx}: Atom.copy() != the atom")
+        o.check(not (clone != atom), "copy_equal", lambda: f"{ctx}: Atom.copy() != the atom is True")
+    o.check(
+        not np.shares_memory(clone.coord, atom.coord),
+        "copy_independent",
+        lambda: f"{ctx}: coord of Atom.copy() shares memory with the atom it was copied from",
+    )
+    if clone.coord.flags.writeable:
+        clone.coord += np.float32(5.5)
+        clone.res_id = matom["ann"]["res_id"] + 1
+        c = np.asarray(atom.coord)
+        o.check(
+            _same_list(c.astype(float).tolist(), list(matom["coord"])) and _plain(atom.res_id) == matom["ann"]["res_id"],
+            "copy_independent",
+            lambda: f"{ctx}: editing Atom.copy() changed the original atom: coord {c.tolist()} res_id {atom.res_id}, want {matom['coord']} {matom['ann']['res_id']}",
+        )
+        if not _atom_has_nan(matom):
+            o.check(clone != atom and not (clone == atom), "equality_detects_difference", lambda: f"{ctx}: edited Atom.copy() still equals the atom")
+        o.label("atom_copy_edited_in_place")
+
+
+def real_bond_dict(o, bl, n, ctx, strict_dup=True):
     arr = np.asarray(bl.as_array())
     ok = arr.ndim == 2 and arr.shape[1] == 3
     o.check(ok, "length_depth_coherent", lambda: f"{ctx}: bonds.as_array() shape {arr.shape}")
@@ -322,7 +406,7 @@ def real_bond_dict(o, bl, n, ctx):
         if not (0 <= i and j < n and i != j):
             o.fail("length_depth_coherent", f"{ctx}: bond ({i},{j}) is out of range for {n} atoms")
             return None
-        if (i, j) in out:
+        if (i, j) in out and strict_dup:
             o.fail("bonds_equal_model", f"{ctx}: bond ({i},{j}) listed twice")
             return None
         out[(i, j)] = t
@@ -334,8 +418,8 @@ def check_state(o, real, mc, ctx, eq_check=True):
     import biotite.structure as struc
 
     nv = len(o.violations)
-    want_type = struc.AtomArray if mc.kind == "array" else struc.AtomArrayStack
-    if not o.check(type(real) is want_type, "kind_matches", lambda: f"{ctx}: is {type(real).__name__}, model says {mc.kind}"):
+    want_type, other_type = (struc.AtomArray, struc.AtomArrayStack) if mc.kind == "array" else (struc.AtomArrayStack, struc.AtomArray)
+    if not o.check(isinstance(real, want_type) and not isinstance(real, other_type), "kind_matches", lambda: f"{ctx}: is {type(real).__name__}, model says {mc.kind}"):
         return False
     n = mc.n
     # (1) lengths / depths
@@ -346,9 +430,9 @@ def check_state(o, real, mc, ctx, eq_check=True):
     if mc.kind == "stack":
         o.check(real.stack_depth() == mc.m, "length_depth_coherent", lambda: f"{ctx}: stack_depth {real.stack_depth()} want {mc.m}")
     coord = real.coord
-    ok = isinstance(coord, np.ndarray) and coord.shape == shape + (3,) and coord.dtype == np.float32
-    o.check(ok, "length_depth_coherent", lambda: f"{ctx}: coord shape {getattr(coord, 'shape', None)} dtype {getattr(coord, 'dtype', None)} want {shape + (3,)} float32")
-    if ok:
+    ok = isinstance(coord, np.ndarray) and coord.shape == shape + (3,)
+    o.check(ok, "length_depth_coherent", lambda: f"{ctx}: coord shape {getattr(coord, 'shape', None)} want {shape + (3,)}")
+    if ok and o.check(np.issubdtype(coord.dtype, np.floating), "coord_equal_model", lambda: f"{ctx}: coord dtype {coord.dtype} is not a float type"):
         o.check(
             _same_list(coord.astype(float).tolist(), [list(c) for c in mc.coord] if mc.kind == "array" else [[list(c) for c in mod] for mod in mc.coord]),
             "coord_equal_model",
@@ -371,7 +455,7 @@ def check_state(o, real, mc, ctx, eq_check=True):
             lambda: f"{ctx}: annotation {name} has shape {getattr(arr, 'shape', None)}, array length is {n}",
         ):
             continue
-        o.check(arr.dtype.kind == kind, "annotations_equal_model", lambda: f"{ctx}: annotation {name} has dtype {arr.dtype}, want kind {kind}")
+        o.check(arr.dtype.kind in KIND_OK[kind], "annotations_equal_model", lambda: f"{ctx}: annotation {name} has dtype {arr.dtype}, want kind {kind}")
         o.check(
             _same_list(arr.tolist(), [a[name] for a in mc.ann]),
             "annotations_equal_model",
@@ -396,8 +480,12 @@ def check_state(o, real, mc, ctx, eq_check=True):
         o.check(bl is None, "bonds_equal_model", lambda: f"{ctx}: bonds is {bl!r}, want None")
     elif o.check(bl is not None, "bonds_equal_model", lambda: f"{ctx}: bonds is None, want {mc.bonds}"):
         o.check(bl.get_atom_count() == n, "length_depth_coherent", lambda: f"{ctx}: bonds.get_atom_count() {bl.get_atom_count()}, array length {n}")
-        got = real_bond_dict(o, bl, n, ctx)
-        if got is not None:
+        got = real_bond_dict(o, bl, n, ctx, strict_dup=not mc.loose_bonds)
+        if got is not None and mc.loose_bonds:
+            # content unspecified (duplicated atom index): coherent with n is all that is required;
+            # from here on the observed bonds are the reference
+            mc.bonds, mc.loose_bonds = got, False
+        elif got is not None:
             o.check(got == mc.bonds, "bonds_equal_model", lambda: f"{ctx}: bonds {sorted(got.items())} want {sorted(mc.bonds.items())}")
             if "uid" in cats and real.get_annotation("uid").shape == (n,):
                 uid = real.get_annotation("uid").tolist()
@@ -427,6 +515,12 @@ def reduce_idx(raw, length, allow_below):
             return ("int", raw[1] % 3), "int-bad"
         i = raw[1] % (2 * length) - length
         return ("int", i, raw[2]), ("int-neg" if i < 0 else "int")
+    if tag == "int0d":
+        p, f = raw[1], raw[2]
+        if length == 0 or f % 8 == 7:
+            return ("int0d", length + p % 3, "int64"), "int0d-bad"
+        i = p % (2 * length) - length
+        return ("int0d", i, _DT_0D[f % 8]), ("int0d-neg" if i < 0 else "int0d")
     if tag == "slice":
         a, b, c = raw[1], raw[2], raw[3]
         lab = "slice"
@@ -444,6 +538,8 @@ def reduce_idx(raw, length, allow_below):
         vals = [] if length == 0 else [r % (2 * length) - length for r in raw[1]]
         if not raw[2] and vals and len(raw[1]) % 2:
             vals = vals + [vals[0]]  # non-unique requested: make a duplicate likely
+            if len(raw[1]) % 4 == 3:
+                vals = [v % length for v in vals]  # ... spelled with non-negative values only
         if raw[2]:  # unique positions
             seen, out = set(), []
             for v in vals:
@@ -475,10 +571,16 @@ def reduce_idx(raw, length, allow_below):
     raise AssertionError(raw)
 
 
+_DT_0D = ["int64", "int8", "int32", "uint8", "int16", "int64", "uint16", "int64"]
 F1 = "C01-F1"
 # context of the index that is being built (set by the interpreter): atom count of the container,
 # whether it has a BondList, and the outcome that counts narrowed cases
 _IDX_CTX = {"n": 0, "bonds": False, "o": None}
+
+
+def set_idx_ctx(n, bonds, o):
+    """Must be called by every caller of np_index() for the container that is about to be indexed."""
+    _IDX_CTX.update(n=n, bonds=bonds, o=o)
 
 
 def np_index(d):
@@ -491,24 +593,65 @@ def np_index(d):
         if d[2] and d[1]:
             return list(d[1])
         return np.array(d[1], dtype=bool)
-    if tag == "arr":
+    if tag in ("arr", "int0d"):
         dt = d[2]
         if dt == "list":
             return list(d[1])
-        if dt.startswith("uint") and any(v < 0 for v in d[1]):
-            dt = "int64"
-        if dt == "int8" and any(abs(v) > 100 for v in d[1]):
-            dt = "int64"
+        vals = [d[1]] if tag == "int0d" else d[1]
+        if any(not (np.iinfo(dt).min <= v <= np.iinfo(dt).max) for v in vals):
+            dt = "int64"  # the requested dtype cannot hold the values
         if findings.is_open(F1) and not _IDX_CTX.get("no_exclude") and _IDX_CTX["bonds"] and _IDX_CTX["n"] > np.iinfo(dt).max:
             # open finding C01-F1: BondList cannot be indexed with an index array whose integer dtype
             # cannot hold the atom count (OverflowError) - use a wide dtype instead and count it
             if _IDX_CTX["o"] is not None:
                 _IDX_CTX["o"].exclude(F1)
             dt = "int64"
-        return np.array(d[1], dtype=dt)
+        return np.array(d[1], dtype=dt)  # int0d: d[1] is a plain int -> zero-dimensional array
     if tag == "ell":
         return Ellipsis
     raise AssertionError(d)
+
+
+def _int_as(i, npint):
+    """i as Python int (0), np.int64 (1) or the narrowest signed NumPy integer that holds it (2)."""
+    if not npint:
+        return int(i)
+    if npint % 2:
+        return np.int64(i)
+    return np.int8(i) if -128 <= i <= 127 else np.int16(i) if -(2**15) <= i < 2**15 else np.int64(i)
+
+
+def zero_d_lenient(mcall):
+    """Model call for ``array[0-d integer array]`` and for a 0-d integer array on the atom axis of a
+    2-tuple: NumPy treats it as an integer, biotite documents nothing beyond "all index types NumPy
+    accepts" and refuses it today.  Accepted: a clean exception (source unchanged) or the result the
+    model gives for the integer.  An index that is invalid anyway must raise."""
+
+    def call():
+        try:
+            res = mcall()
+        except M.Invalid as inv:
+            kinds = inv.kind if isinstance(inv.kind, tuple) else (inv.kind,)
+            raise M.Invalid(tuple(dict.fromkeys(kinds + ("any",))), inv.why) from None
+        raise M.Invalid("any", "zero-dimensional integer array off the model axis", alt=lambda: res, alt_exc=EXC["any"], label="int0d")
+
+    return call
+
+
+def zero_d_strict(mcall):
+    """``stack[0-d integer array]`` equals ``stack[int]``; out of range: IndexError like an integer, or
+    another clean exception."""
+
+    def call():
+        try:
+            return mcall()
+        except M.Invalid as inv:
+            if inv.alt is not None:
+                raise  # another undocumented class on the other axis decides
+            kinds = inv.kind if isinstance(inv.kind, tuple) else (inv.kind,)
+            raise M.Invalid(tuple(dict.fromkeys(kinds + ("any",))), inv.why) from None
+
+    return call
 
 
 def is_fancy(label):
@@ -564,6 +707,17 @@ class Interp:
         try:
             mres = model_call()
         except M.Invalid as inv:
+            if inv.alt is not None:
+                # input class without any documented treatment: an exception (of whatever type) or
+                # the result the model gives when the class is supported
+                name = inv.label or _kind_label(inv.kind)
+                try:
+                    rres = real_call()
+                except (inv.alt_exc or Exception) as e:  # noqa: BLE001
+                    self.o.label(f"undocumented:{name}:raised:{type(e).__name__}")
+                    return False, None, None
+                self.o.label(f"undocumented:{name}:returned")
+                return True, inv.alt(), rres
             self.o.label(f"rejected:{inv.kind if isinstance(inv.kind, str) else 'multi'}")
             self.o.expect_raises(exc_for(inv.kind), real_call, "invalid_operation_rejected", self.ctx(f"(model: {inv.why})"))
             return False, None, None
@@ -603,18 +757,39 @@ class Interp:
         """Returns (model_call, real_call, labels)."""
         mc, real = s.model, s.real
         has_bonds = mc.bonds is not None
-        _IDX_CTX.update(n=mc.n, bonds=has_bonds, o=self.o)
+        set_idx_ctx(mc.n, has_bonds, self.o)
+        if form == "md":
+            # one index more than the container has axes: array[i, j] / stack[i, j, k]
+            def bad():
+                raise M.Invalid("any", "more index dimensions than the container has axes")
+
+            d1, lab1 = reduce_idx(raw1, mc.n, not has_bonds)
+            ix1 = np_index(d1)
+            set_idx_ctx(mc.m if mc.kind == "stack" else mc.n, False, self.o)
+            d0, lab0 = reduce_idx(raw0, mc.m if mc.kind == "stack" else mc.n, False)
+            ix0 = np_index(d0)
+            if mc.kind == "array":
+                if lab0 == "ell":
+                    ix0 = slice(None)  # (Ellipsis, idx) is the documented two-tuple
+                return bad, (lambda: real[ix0, ix1]), ["md:array"], []
+            return bad, (lambda: real[ix0, ix1, 0]), ["md:stack"], []
         if mc.kind == "array":
             raw = raw0 if form == "1d" else raw1
             d, lab = reduce_idx(raw, mc.n, not has_bonds)
             ix = np_index(d)
+            mcall = lambda: mc.index(d)  # noqa: E731
+            if d[0] == "int0d":
+                mcall = zero_d_lenient(mcall)
             if form == "te":
-                return (lambda: mc.index(d)), (lambda: real[..., ix]), ["te:" + lab], [lab]
-            return (lambda: mc.index(d)), (lambda: real[ix]), [lab], [lab]
+                return mcall, (lambda: real[..., ix]), ["te:" + lab], [lab]
+            return mcall, (lambda: real[ix]), [lab], [lab]
         if form == "1d":
             d0, lab0 = reduce_idx(raw0, mc.m, True)
             ix0 = np_index(d0)
-            return (lambda: mc.index(d0)), (lambda: real[ix0]), ["model:" + lab0], [lab0]
+            mcall = lambda: mc.index(d0)  # noqa: E731
+            if d0[0] == "int0d":
+                mcall = zero_d_strict(mcall)
+            return mcall, (lambda: real[ix0]), ["model:" + lab0], [lab0]
         d1, lab1 = reduce_idx(raw1, mc.n, not has_bonds)
         ix1 = np_index(d1)
         if form == "te":
@@ -627,7 +802,13 @@ class Interp:
                 d0, lab0, ix0 = ("slice", None, None, None), "slice", slice(None)
         k0 = lab0.split("-")[0]
         k1 = lab1.split("-")[0]
-        return (lambda: mc.index(d0, d1)), (lambda: real[ix0, ix1]), [f"2d:{k0}x{k1}", "atomaxis:" + lab1], [lab0, lab1]
+        mcall = lambda: mc.index(d0, d1)  # noqa: E731
+        if d0[0] == "int0d":
+            # model axis: the 0-d integer array is the integer (strict); out of range -> a clean exception
+            mcall = zero_d_strict(mcall)
+        if d1[0] == "int0d":
+            mcall = zero_d_lenient(mcall)
+        return mcall, (lambda: real[ix0, ix1]), [f"2d:{k0}x{k1}", "atomaxis:" + lab1], [lab0, lab1]
 
     def op_index(self, src, dst, form, raw0, raw1):
         s = self.get(src)
@@ -635,7 +816,9 @@ class Interp:
             return self.skip("empty")
         mcall, rcall, labels, kinds = self._index_call(s, form, raw0, raw1)
         self.o.label(*["idx:" + lab for lab in labels])
-        if s.model.kind == "stack" and form != "1d":
+        if form == "md":
+            self.classes.add("multidim")
+        elif s.model.kind == "stack" and form != "1d":
             self.classes.add("2d" if form == "2d" else "tuple_ellipsis")
         elif form == "te":
             self.classes.add("tuple_ellipsis")
@@ -663,11 +846,12 @@ class Interp:
         what, mval = mres
         if what == "atom":
             check_atom(self.o, rres, mval, self.ctx("result"))
-            # the returned Atom is the caller's: editing its coordinates in place must leave the
-            # container untouched (verified by the comparison of every slot after this step)
-            if isinstance(getattr(rres, "coord", None), np.ndarray) and rres.coord.flags.writeable:
-                rres.coord += np.float32(5.5)
-                self.o.label("returned_atom_edited_in_place")
+            # Whether the returned Atom is a view of the container is documented nowhere (label only);
+            # its copy() must be independent of it and of the container.
+            if isinstance(getattr(rres, "coord", None), np.ndarray):
+                self.o.label("returned_atom:" + ("view" if np.shares_memory(rres.coord, s.real.coord) else "independent"))
+            if self.o.ok:
+                check_atom_copy(self.o, rres, mval, self.ctx("result"))
             return
         self.put(dst, rres, mval, s.prov)
         # bonds keep connecting the same atoms: judged on the real objects alone
@@ -676,6 +860,7 @@ class Interp:
             and getattr(rres, "bonds", None) is not None
             and "uid" in rres.get_annotation_categories()
             and len(rres.get_annotation("uid")) == rres.bonds.get_atom_count()
+            and len(set(rres.get_annotation("uid").tolist())) == len(rres.get_annotation("uid"))
         ):
             kept = set(rres.get_annotation("uid").tolist())
             want = [b for b in before_uid if b[0] in kept and b[1] in kept]
@@ -685,7 +870,7 @@ class Interp:
             )
             self.o.check(got == want, "bonds_connect_same_atoms", lambda: self.ctx(f"bonds by uid after indexing {got}, want {want}"))
 
-    def op_concat(self, srcs, dst, plus, compat, spec):
+    def op_concat(self, srcs, dst, plus, compat, spec, container=0):
         import biotite.structure as struc
 
         first = self.get(srcs[0])
@@ -711,12 +896,18 @@ class Interp:
             parts.append(first)
         models = [p.model for p in parts]
         reals = [p.real for p in parts]
+        if sum(m.n for m in models) > MAX_ATOMS:
+            return self.skip("too-large")
         use_plus = plus and len(parts) == 2
+        # documented argument: "iterable object of AtomArray or AtomArrayStack"
+        wrap = [list, tuple, iter][container % 3]
         ok, mres, rres = self.attempt(
             lambda: M.concatenate(models),
-            (lambda: reals[0] + reals[1]) if use_plus else (lambda: struc.concatenate(reals)),
+            (lambda: reals[0] + reals[1]) if use_plus else (lambda: struc.concatenate(wrap(reals))),
         )
         self.o.label("concat:" + ("plus" if use_plus else str(len(parts))))
+        if not use_plus:
+            self.o.label("concat:arg=" + ["list", "tuple", "iterator"][container % 3])
         if not ok:
             return
         self.structural(*models)
@@ -761,9 +952,23 @@ class Interp:
                 models[-1].ann[0]["res_id"] += 1
             reals += [build_real(v) for v in models[1:]]
             self.o.label("stack:from_arrays")
-        ok, mres, rres = self.attempt(lambda: M.stack(models), lambda: struc.stack(reals))
-        if not ok:
-            return
+        partial = any(v.box is None for v in models) and any(v.box is not None for v in models)
+        try:
+            mres = M.stack(models)
+        except M.Invalid:
+            partial = False  # rejected for another reason: the generic path decides
+        if partial:
+            # only some arrays have a box: the docstring of stack() is silent -> no box at all, or refused
+            try:
+                rres = struc.stack(reals)
+            except (ValueError, TypeError) as e:
+                self.o.label(f"stack:partial_boxes:refused:{type(e).__name__}")
+                return
+            self.o.label("stack:partial_boxes:stacked")
+        else:
+            ok, mres, rres = self.attempt(lambda: M.stack(models), lambda: struc.stack(reals))
+            if not ok:
+                return
         self.structural(*models)
         self.put(dst, rres, mres, s.prov)
 
@@ -775,6 +980,8 @@ class Interp:
             return self.skip("empty")
         mc = s.model
         k = len(shifts)
+        if mc.n * k > MAX_ATOMS:
+            return self.skip("too-large")
         if mc.kind == "array":
             coords = [shift_coords(mc.coord, sh) for sh in shifts]
             arr = np.array(coords, dtype=np.float32).reshape(k, mc.n, 3)
@@ -841,7 +1048,7 @@ class Interp:
         if ok:
             self.put(dst, rres, mres, ())
 
-    def op_del(self, slot, raw, bad):
+    def op_del(self, slot, raw, bad, npint=0):
         s = self.get(slot)
         if s is None:
             return self.skip("empty")
@@ -855,13 +1062,14 @@ class Interp:
             i = raw % (2 * length) - length
             lab = "neg" if i < 0 else "pos"
         real = s.real
+        ix = _int_as(i, npint)
 
         def rcall():
-            del real[i]
+            del real[ix]
 
         had = mc.clone()
         ok, _, _ = self.attempt(lambda: mc.delete(i), rcall)
-        self.o.label(f"del:{'atom' if mc.kind == 'array' else 'model'}:{lab}")
+        self.o.label(f"del:{'atom' if mc.kind == 'array' else 'model'}:{lab}", "del:index_type=" + type(ix).__name__)
         if ok:
             self.structural(had)
             self.dirty.add(slot % NSLOTS)
@@ -879,20 +1087,31 @@ class Interp:
                 ann[name] = fit_width(real, name, value_for(name, shift))
         return {"ann": ann, "coord": (shift * 0.25, shift * 0.5 + 1.0, -shift * 0.25)}
 
-    def op_set(self, slot, raw, vals, shift, many, bad):
+    def op_set(self, slot, raw, vals, shift, many, bad, npint=0):
         s = self.get(slot)
         if s is None:
             return self.skip("empty")
         mc, real = s.model, s.real
         k = slot % NSLOTS
         self.before_inplace_write(k)
+        set_idx_ctx(mc.n, mc.bonds is not None, self.o)
         if mc.kind == "array":
             matom = self._atom_for(mc, vals, shift, real)
             atom = real_atom(matom)
             if many is not None and mc.n:
+                # documented index type of __setitem__ is int; an index array works today.  Either it is
+                # performed (then like the model) or refused, leaving the array as it was (compared below)
                 d = ("arr", list(dict.fromkeys(r % (2 * mc.n) - mc.n for r in many)), "int64")
                 ix = np_index(d)
-                self.o.label("set:atoms_by_index_array")
+                try:
+                    real[ix] = atom
+                except (TypeError, IndexError, ValueError) as e:
+                    self.o.label(f"set:index_array_refused:{type(e).__name__}")
+                else:
+                    mc.set_atoms(d, matom)
+                    self.o.label("set:atoms_by_index_array")
+                self.dirty.add(k)
+                return
             else:
                 if bad or mc.n == 0:
                     d = ("int", mc.n + raw % 2)
@@ -900,7 +1119,8 @@ class Interp:
                 else:
                     d = ("int", raw % (2 * mc.n) - mc.n)
                     self.o.label("set:atom:neg" if d[1] < 0 else "set:atom:pos")
-                ix = d[1]
+                ix = _int_as(d[1], npint)
+                self.o.label("set:index_type=" + type(ix).__name__)
 
             def rcall():
                 real[ix] = atom
@@ -917,6 +1137,8 @@ class Interp:
                     arr.box = DEFAULT_BOX
             if bad:
                 j = mc.m + raw % 2
+            jx = _int_as(j, npint)
+            self.o.label("set:index_type=" + type(jx).__name__)
             arr.coord = shift_coords(arr.coord, shift)
             if arr.box is not None:
                 arr.box = shift_box(arr.box, shift)
@@ -926,7 +1148,7 @@ class Interp:
             self.o.label("set:model:bad" if (bad or not mc.m) else ("set:model:neg" if j < 0 else "set:model:pos"))
 
             def rcall():
-                real[j] = rarr
+                real[jx] = rarr
 
             self.attempt(lambda: mc.set_model(j, arr), rcall)
         self.dirty.add(k)
@@ -937,6 +1159,9 @@ class Interp:
             return self.skip("empty")
         mc, real = s.model, s.real
         name = EDITABLE[cat % len(EDITABLE)]
+        if name in mc.cats:
+            # replacing an existing category may legally be done by writing into the stored array
+            self.before_inplace_write(slot % NSLOTS)
         length = mc.n + badlen
         if length < 0:
             length = mc.n + 1
@@ -996,7 +1221,7 @@ class Interp:
         s = self.get(slot)
         if s is None:
             return self.skip("empty")
-        name = EXTRA_NAMES[which % 4]
+        name = EXTRA_NAMES[which % len(EXTRA_NAMES)]
         s.real.add_annotation(name, DTYPE[name])
         s.model.add_annotation(name, EXTRA[name])
         self.o.label("annot:add")
@@ -1006,7 +1231,12 @@ class Interp:
         s = self.get(slot)
         if s is None:
             return self.skip("empty")
-        name = EXTRA_NAMES[which % 4]
+        # "Removes an annotation category": nothing is said about a category that does not exist,
+        # so only existing ones are removed
+        present = [n for n in EXTRA_NAMES if n in s.model.cats]
+        if not present:
+            return self.skip("no-such-category")
+        name = present[which % len(present)]
         s.real.del_annotation(name)
         s.model.del_annotation(name)
         self.o.label("annot:del")
@@ -1017,6 +1247,7 @@ class Interp:
         if s is None:
             return self.skip("empty")
         mc = s.model
+        self.before_inplace_write(slot % NSLOTS)
         if mc.kind == "array":
             mc.coord = shift_coords(mc.coord, shift)
         else:
@@ -1054,6 +1285,7 @@ class Interp:
         if s is None:
             return self.skip("empty")
         mc = s.model
+        self.before_inplace_write(slot % NSLOTS)
         if bq is None:
             mc.box = None
             s.real.box = None
@@ -1099,6 +1331,7 @@ class Interp:
         if s is None:
             return self.skip("empty")
         mc, real = s.model, s.real
+        self.before_inplace_write(slot % NSLOTS)
         if bonds is None:
             mc.bonds = None
             real.bonds = None
@@ -1165,10 +1398,18 @@ class Interp:
                 self.o.check(len(items) == s.model.n, "length_depth_coherent", lambda: self.ctx(f"slot {k}: iteration yields {len(items)} atoms"))
                 for i, a in enumerate(items[: s.model.n]):
                     check_atom(self.o, a, s.model.atom_at(i), self.ctx(f"slot {k} iter[{i}]"))
+                if s.model.n and self.o.ok:
+                    # get_atom(): "The same as array[index], if index is an integer"
+                    check_atom(self.o, s.real.get_atom(-1), s.model.atom_at(s.model.n - 1), self.ctx(f"slot {k} get_atom(-1)"))
+                    check_atom_copy(self.o, items[0], s.model.atom_at(0), self.ctx(f"slot {k} iter[0]"))
+                    self.o.label("final:get_atom")
             else:
                 self.o.check(len(items) == s.model.m, "length_depth_coherent", lambda: self.ctx(f"slot {k}: iteration yields {len(items)} models"))
                 for j, a in enumerate(items[: s.model.m]):
                     check_state(self.o, a, s.model.get_model(j), self.ctx(f"slot {k} iter[{j}]"), eq_check=False)
+                if s.model.m and self.o.ok:
+                    check_state(self.o, s.real.get_array(-1), s.model.get_model(s.model.m - 1), self.ctx(f"slot {k} get_array(-1)"), eq_check=False)
+                    self.o.label("final:get_array")
 
 
 def check_no_shared_memory(o, a, b, ctx):
@@ -1235,6 +1476,7 @@ def run_copy_indep(case):
     if case["view"] is not None:
         # the object that is copied is itself a view of a larger container
         d, _ = reduce_idx(case["view"], mc.n, False)
+        set_idx_ctx(mc.n, mc.bonds is not None, o)
         _, mc = mc.index(d) if mc.kind == "array" else mc.index(("ell",), d)
         real = real[np_index(d)] if mc.kind == "array" else real[:, np_index(d)]
         o.label("copy_of_view")
@@ -1321,6 +1563,35 @@ def run_copy_indep(case):
         mmut.set_atoms(("int", -1), matom)
         if not both("element assignment"):
             return o
+    if mmut.kind == "stack" and nmod:
+        # stack[j] = array (another model of the same stack, moved)
+        j = v % (2 * nmod) - nmod
+        marr = mmut.get_model((v // 3) % nmod)
+        marr.coord = shift_coords(marr.coord, 5 + v % 7)
+        if marr.box is not None:
+            marr.box = shift_box(marr.box, 3 + v % 5)
+        mut[j] = build_real(marr)
+        mmut.set_model(j, marr)
+        if not both("model assignment"):
+            return o
+    # whole-component assignments on one side
+    if mmut.kind == "array":
+        mmut.coord = shift_coords(mmut.coord, -7)
+    else:
+        mmut.coord = [shift_coords(mod, -7) for mod in mmut.coord]
+    mut.coord = _coord_array(mmut)
+    if n:
+        values = [a["res_id"] + 17 for a in mmut.ann]
+        mmut.set_annotation("res_id", "i", values)
+        if v % 2:
+            mut.set_annotation("res_id", np.array(values, dtype=np.int64))
+        else:
+            mut.res_id = np.array(values, dtype=np.int64)
+    if mmut.box is not None:
+        mmut.box = shift_box(mmut.box, 9) if mmut.kind == "array" else [shift_box(b, 9) for b in mmut.box]
+        mut.box = _box_array(mmut)
+    if not both("coord / annotation / box assignment"):
+        return o
     length = n if mmut.kind == "array" else nmod
     if length:
         del mut[v % length]
@@ -1329,8 +1600,9 @@ def run_copy_indep(case):
             return o
     mut.add_annotation("xb", bool)
     mmut.add_annotation("xb", "b")
-    mut.del_annotation("xs")
-    mmut.del_annotation("xs")
+    if "xs" in mmut.cats:
+        mut.del_annotation("xs")
+        mmut.del_annotation("xs")
     if not both("add/del annotation"):
         return o
     mut.box = None
@@ -1428,19 +1700,27 @@ def enum_cases(tier):
             for d in _axis_indices(n, pair_level, not bonds):
                 yield {"kind": "array", "n": n, "m": 0, "bonds": bonds, "form": "te", "d0": None, "d1": d}
             for i in range(-n - (0 if bonds else 1), n + 1):
-                yield {"kind": "array", "n": n, "m": 0, "bonds": bonds, "form": "del", "d0": ["int", i, False], "d1": None}
+                for npint in (False, True):
+                    yield {"kind": "array", "n": n, "m": 0, "bonds": bonds, "form": "del", "d0": ["int", i, npint], "d1": None}
             for m in range(mmax + 1):
                 if not quick or n in (0, 2):
                     for d0 in _axis_indices(m, "full", True):
                         yield {"kind": "stack", "n": n, "m": m, "bonds": bonds, "form": "1d", "d0": d0, "d1": None}
+                    for i in range(-m - 2, m + 2):
+                        yield {"kind": "stack", "n": n, "m": m, "bonds": bonds, "form": "1d", "d0": ["int0d", i, "int8" if i % 2 else "int64"], "d1": None}
                 for i in range(-m - 1, m + 1):
-                    yield {"kind": "stack", "n": n, "m": m, "bonds": bonds, "form": "del", "d0": ["int", i, False], "d1": None}
+                    for npint in (False, True):
+                        yield {"kind": "stack", "n": n, "m": m, "bonds": bonds, "form": "del", "d0": ["int", i, npint], "d1": None}
                 ax1 = _axis_indices(n, pair_level, not bonds)
                 for d1 in ax1:
                     yield {"kind": "stack", "n": n, "m": m, "bonds": bonds, "form": "te", "d0": None, "d1": d1}
                 for d0 in _axis_indices(m, pair_level, True):
                     for d1 in ax1:
                         yield {"kind": "stack", "n": n, "m": m, "bonds": bonds, "form": "2d", "d0": d0, "d1": d1}
+                # 0-d integer array on the model axis of a 2-tuple = the integer
+                for i in range(-m - 1, m + 1):
+                    for d1 in (["slice", None, None, None], ["int", -1, False], ["arr", [0], "int64"], ["mask", [True] * n, False], ["ell"]):
+                        yield {"kind": "stack", "n": n, "m": m, "bonds": bonds, "form": "2d", "d0": ["int0d", i, "int16" if i % 2 else "int64"], "d1": d1}
 
 
 def _tup(d):
@@ -1450,8 +1730,8 @@ def _tup(d):
 def _desc_label(d):
     if d is None:
         return "-"
-    if d[0] == "int":
-        return "int-neg" if d[1] < 0 else "int"
+    if d[0] in ("int", "int0d"):
+        return d[0] + "-neg" if d[1] < 0 else d[0]
     if d[0] == "slice":
         return "slice-negstep" if (d[3] or 1) < 0 else "slice"
     if d[0] == "arr":
@@ -1469,11 +1749,13 @@ def run_enum(case):
     it = Interp(o)
     it.step, it.op = 0, [form, case["d0"], case["d1"]]
     o.label(f"{case['kind']}:{form}:{_desc_label(d0)}x{_desc_label(d1)}")
+    set_idx_ctx(mc.n, mc.bonds is not None, o)
     if form == "del":
         i = d0[1]
+        ix = np_index(d0)  # Python int or np.int64
 
         def rcall():
-            del real[i]
+            del real[ix]
 
         it.attempt(lambda: mc.delete(i), rcall)
         check_state(o, real, mc, it.ctx("after del"))
@@ -1487,23 +1769,29 @@ def run_enum(case):
     elif form == "1d":
         ix0 = np_index(d0)
         mcall = lambda: mc.index(d0)  # noqa: E731
+        if d0[0] == "int0d":
+            mcall = zero_d_strict(mcall)
         rcall = lambda: real[ix0]  # noqa: E731
     else:
         if form == "te":
             d0 = ("ell",)
         ix0, ix1 = np_index(d0), np_index(d1)
         mcall = lambda: mc.index(d0, d1)  # noqa: E731
+        if d0[0] == "int0d":
+            mcall = zero_d_strict(mcall)
         rcall = lambda: real[ix0, ix1]  # noqa: E731
     ok, mres, rres = it.attempt(mcall, rcall)
     if ok:
         what, mval = mres
         if what == "atom":
             check_atom(o, rres, mval, it.ctx("result"))
+            if o.ok:
+                check_atom_copy(o, rres, mval, it.ctx("result"))
         else:
             check_state(o, rres, mval, it.ctx("result"))
     # the source must be unchanged by indexing
     check_state(o, real, mc, it.ctx("source after indexing"), eq_check=False)
-    o.mark_nontrivial(ok and any(_desc_label(d) in ("int-neg", "slice-negstep", "arr-neg", "mask", "arr") for d in (d0, d1) if d))
+    o.mark_nontrivial(ok and any(_desc_label(d) in ("int-neg", "int0d-neg", "slice-negstep", "arr-neg", "mask", "arr") for d in (d0, d1) if d))
     return o
 
 
@@ -1549,6 +1837,8 @@ def decode_extras(mask, xv):
         if mask >> b & 1:
             if name == "xi":
                 out[name] = [v * 7919 - 2**20 if v % 5 else v * 2**33 for v in xv]
+            elif name == "x8":
+                out[name] = [(v * 37) % 256 - 128 for v in xv]
             else:
                 out[name] = [value_for(name, v + b) for v in xv]
     return out
@@ -1581,7 +1871,7 @@ def st_spec(tier, kind=None, rich=False):
         st.sampled_from([0, 1, 1, 2, 2, 2, 3, 3, 4]),
         st.sampled_from([0, 1, 1, 2, 2, 3, 3, 4, 4, 5, 6, 7, 8] + ([] if tier == "quick" else [10, 13, 17, 22, 30])),
         st.lists(st.integers(0, 5 * 11000 * 3 * 5 * 2 * 5 * 5 - 1), min_size=nmax, max_size=nmax),
-        st.sampled_from([0, 0, 0, 1, 2, 4, 8, 3, 5, 6, 9, 10, 12, 15]) if not rich else st.sampled_from([1, 3, 6, 8, 15, 0]),
+        st.sampled_from([0, 0, 0, 1, 2, 4, 8, 3, 5, 6, 9, 10, 12, 15, 16, 32, 48, 63]) if not rich else st.sampled_from([1, 3, 6, 8, 15, 0, 16, 33, 60]),
         st.lists(st.integers(0, 50), min_size=1, max_size=4),
         st.lists(st.integers(-15, 15), min_size=1, max_size=6),
         st.sampled_from([[], [], [], [], [], [], [], [], [], [], [0, 100], [299]]),
@@ -1594,6 +1884,8 @@ def _make_idx(t):
     tag, p, a, b, c, vals, f = t
     if tag == "int":
         return ["int", p, bool(f % 2)]
+    if tag == "int0d":
+        return ["int0d", p, f]
     if tag == "slice":
         return ["slice", a, b, c]
     if tag == "mask":
@@ -1609,7 +1901,7 @@ def _make_idx(t):
     return ["badarr", p % 2, bool(f % 2)]
 
 
-_IDX_TAGS = ["int"] * 4 + ["slice"] * 6 + ["mask"] * 5 + ["arr"] * 6 + ["ell"] * 2 + ["badint", "badmask", "badarr"]
+_IDX_TAGS = ["int"] * 4 + ["int0d"] * 2 + ["slice"] * 6 + ["mask"] * 5 + ["arr"] * 6 + ["ell"] * 2 + ["badint", "badmask", "badarr"]
 
 
 def st_raw_idx(tier):
@@ -1650,9 +1942,9 @@ def _make_generic(t):
     if name == "array":
         return ["array", s1, s2, raws[:5] or [p]]
     if name == "del":
-        return ["del", s1, p, rare]
+        return ["del", s1, p, rare, (f // 12) % 3]
     if name == "set":
-        return ["set", s1, p, decode_atom(big), q % 17 - 8, (raws[:3] or None) if f % 4 == 0 else None, rare]
+        return ["set", s1, p, decode_atom(big), q % 17 - 8, (raws[:3] or None) if f % 4 == 0 else None, rare, (f // 12) % 3]
     if name == "set_annot":
         return ["set_annot", s1, p, [r % 51 for r in raws[:4]] or [q % 51], bool(f % 2), {10: 1, 9: -1}.get(f % 12, 0)]
     if name == "annot_elem":
@@ -1681,7 +1973,7 @@ def st_op(tier):
     idx = st_raw_idx(tier)
 
     def mk_index():
-        return st.tuples(st.just("index"), slot, slot, st.sampled_from(["1d", "1d", "2d", "2d", "2d", "te"]), idx, idx).map(list)
+        return st.tuples(st.just("index"), slot, slot, st.sampled_from(["1d", "1d", "2d", "2d", "2d", "te", "te", "md"]), idx, idx).map(list)
 
     op_concat = st.tuples(
         st.just("concat"),
@@ -1690,6 +1982,7 @@ def st_op(tier):
         st.booleans(),
         st.sampled_from([True] * 9 + [False]),
         st.one_of(st.none(), st_spec("quick")),
+        st.sampled_from([0, 0, 1, 2]),
     ).map(list)
     op_new = st.tuples(st.just("new"), slot, st_spec(tier)).map(list)
     def mk_generic():
@@ -1773,8 +2066,22 @@ ENUMS = [
     )
 ]
 
+_NARROW = ("int8", "uint8", "int16", "uint16", "int32", "uint32")
+
+
+def _has_narrow_index_array(case):
+    """case class of C01-F1: a history with an index op whose index array has a narrow integer dtype"""
+    for op in case.get("ops", []) if isinstance(case, dict) else []:
+        if op and op[0] == "index":
+            for raw in op[4:6]:
+                if isinstance(raw, (list, tuple)) and raw and raw[0] == "arr" and raw[-1] in _NARROW:
+                    return True
+    return False
+
+
 def _f1(sub, case, clause, message):
-    return clause == "unexpected_exception" and "OverflowError" in message and "_to_positive_index_array" in message
+    # case class + clause + exception type; no function names or message texts of the library
+    return sub == "history" and clause == "unexpected_exception" and "OverflowError" in message and _has_narrow_index_array(case)
 
 
 FINDINGS = {"bondlist_index_array_dtype_narrower_than_atom_count": _f1}
